@@ -566,8 +566,12 @@ def main(prop, argv=None):
         "assumptions": list(getattr(prop, "ASSUMPTIONS", [])),
         "wall_s": round(wall, 2), "violations": len(violations),
     }
-    os.makedirs(os.path.join(ROOT, "evidence"), exist_ok=True)
-    with open(os.path.join(ROOT, "evidence", f"{pid}.json"), "w") as f:
+    # a run against a scratch copy (VERIF_REPO, used for mutation testing) must not overwrite the
+    # evidence of the real tree
+    scratch = os.environ.get("VERIF_REPO") not in (None, "", "/repo")
+    evdir = os.path.join(ROOT, ".work", "evidence-scratch") if scratch else os.path.join(ROOT, "evidence")
+    os.makedirs(evdir, exist_ok=True)
+    with open(os.path.join(evdir, f"{pid}.json"), "w") as f:
         json.dump(ev, f, indent=1, default=str)
 
     print(f"[{pid}] tier={tier} seed={args.seed} theorems={len(pf['theorems'])} cases={len(recs)} "
